@@ -244,16 +244,20 @@ class Inputs:
             from sympy.physics.quantum import Dagger
             from sympy.physics.quantum.boson import BosonOp
 
-            a = BosonOp("a")
+            a, b = BosonOp("a"), BosonOp("b")
+            two = w.get("sq_modes", 1) == 2
             num = Dagger(a) * a
+            numb = Dagger(b) * b
             Rq = lambda lo, hi: sympy.Rational(int(rg.integers(lo, hi)), int(rg.integers(2, 6)))  # noqa: E731
             omega, delta = 1 + Rq(0, 4), Rq(1, 5) / 3
+            omegab = omega + sympy.Rational(7, 11)  # incommensurate with omega: no accidental resonance at low order
+            h0 = omega * num + (omegab * numb if two else 0)
             self.e = None
             self.full = {}
-            self.blocks = {(0, 0, *self.zero_o): sympy.Matrix([[omega * num - delta]]),
-                           (1, 1, *self.zero_o): sympy.Matrix([[omega * num + delta]])}
+            self.blocks = {(0, 0, *self.zero_o): sympy.Matrix([[h0 - delta]]),
+                           (1, 1, *self.zero_o): sympy.Matrix([[h0 + delta]])}
             for o in map(tuple, w["terms"]):
-                kind = int(rg.integers(0, 4))
+                kind = int(rg.integers(0, 6 if two else 4))
                 g, k = Rq(1, 5), Rq(1, 5)
                 if kind in (0, 1, 3):
                     self.blocks[(0, 1, *o)] = sympy.Matrix([[g * a]])
@@ -262,6 +266,17 @@ class Inputs:
                     self.blocks[(int(rg.integers(0, 2)),) * 2 + o] = sympy.Matrix([[k * (a + Dagger(a))]])
                 if kind == 3:
                     self.blocks[(0, 0, *o)] = sympy.Matrix([[k * num * num]])
+                if kind == 4:
+                    self.blocks[(0, 1, *o)] = sympy.Matrix([[g * b]])
+                    self.blocks[(1, 0, *o)] = sympy.Matrix([[g * Dagger(b)]])
+                    self.blocks[(1, 1, *o)] = sympy.Matrix([[k * (b + Dagger(b))]])
+                if kind == 5:
+                    self.blocks[(0, 0, *o)] = sympy.Matrix([[k * (Dagger(a) * b + Dagger(b) * a)]])
+                    self.blocks[(0, 1, *o)] = sympy.Matrix([[g * a]])
+                    self.blocks[(1, 0, *o)] = sympy.Matrix([[g * Dagger(a)]])
+            # operator-valued elimination masks (dict form of fully_diagonalize)
+            self.sq_masks = {"a": sympy.Matrix([[a + Dagger(a)]]), "ab": sympy.Matrix([[a + Dagger(a) + b + Dagger(b)]]),
+                             "a2": sympy.Matrix([[a + Dagger(a) + a**2 + Dagger(a)**2]])}
             self.vecs = None
             self.masks = {}
             self.tracer = False
@@ -295,6 +310,13 @@ class Inputs:
             self.vecs = None
             self.masks = {}
             return
+        if w.get("sectors") and nb >= 3:
+            # decoupled symmetry sectors {0, 1} and {2, ...}: no term couples them, and they share an eigenvalue
+            for o in map(tuple, w["terms"]):
+                for i in range(nb):
+                    for j in range(nb):
+                        if (i < 2) != (j < 2):
+                            self.absent.add((i, j, o))
         if self.sym:
             import sympy
 
@@ -322,6 +344,8 @@ class Inputs:
                 e[1] = e[0]
             if w.get("illposed") and nb >= 2:
                 e[int(self.offs[w["illposed"]])] = e[0]
+            if w.get("sectors") and nb >= 3:
+                e[int(self.offs[2])] = e[0]
             if not w["herm"] and w.get("complex_e"):
                 e = e + 1j * rg.uniform(-0.3, 0.3, size=N)
             self.e = e
@@ -380,7 +404,7 @@ class Inputs:
         self.masks = {}
         for c, comp in enumerate(w["comps"]):
             fd = comp.get("fd")
-            if isinstance(fd, dict):
+            if isinstance(fd, dict) and "sqmask" not in fd:
                 mk = {}
                 mr = np.random.default_rng(fd["mseed"])
                 for b in fd["blocks"]:
@@ -484,6 +508,10 @@ class Sim:
             self.h_is_series = False
         else:
             raise ValueError(fmt)
+        if world.get("symbols") and self.h_is_series:
+            import sympy
+
+            self.kw["symbols"] = list(sympy.symbols(f"lam0:{inp.npert}"))
         self.container = None
         if not self.h_is_series:
             self.container = [(k, id(v)) for k, v in (self.H.items() if isinstance(self.H, dict) else enumerate(self.H))]
@@ -537,7 +565,9 @@ class Sim:
         kw = dict(self.kw)
         kw["hermitian"] = spec["herm"]
         fd = spec.get("fd")
-        if isinstance(fd, dict):
+        if isinstance(fd, dict) and "sqmask" in fd:
+            kw["fully_diagonalize"] = {b: self.inp.sq_masks[fd["sqmask"]].copy() for b in fd["blocks"]}
+        elif isinstance(fd, dict):
             kw["fully_diagonalize"] = dict(self.inp.masks[c])
         elif fd:
             kw["fully_diagonalize"] = tuple(fd)
@@ -1301,6 +1331,7 @@ class GraphProp:
              "p_zero_block": r.choice([0.0, 0.0, 0.3, 0.6]), "deg": r.random() < 0.25,
              "complex_e": r.random() < 0.4, "derived": r.random() < profile.get("p_derived", 0.5),
              "internals": r.random() < profile.get("p_internals", 0.5), "h_data": r.random() < 0.3,
+             "symbols": r.random() < 0.2, "sectors": bool(nb >= 3 and domain in ("dense", "sparse") and r.random() < 0.25),
              "cap": profile.get("max_total", {1: 4, 2: 3, 3: 2})[npert] if domain != "sym" else 3}
         if fmt == "scalar_vecs":
             w["real"] = False
@@ -1339,8 +1370,11 @@ class GraphProp:
             w.pop("illposed", None)
             w["internals"] = False
             w["deg"] = False
+            w["sq_modes"] = r.choice([1, 2])
             for spec in comps:
-                spec["fd"] = None if isinstance(spec["fd"], dict) else spec["fd"]
+                if isinstance(spec["fd"], dict):
+                    kinds = ["a", "a2"] + (["ab"] if w["sq_modes"] == 2 else [])
+                    spec["fd"] = {"blocks": spec["fd"]["blocks"], "sqmask": r.choice(kinds)} if spec["herm"] else None
                 spec["solver"] = "default"
                 if spec.get("chain") is not None:
                     spec["fd"] = None
@@ -1358,6 +1392,7 @@ class GraphProp:
                 spec["commuting_blocks"] = [r.random() < 0.6 for _ in range(nb)]
         if fmt == "implicit":
             w["cap"] = 3 if npert == 1 else 2
+            w["sectors"] = False
             w.pop("illposed", None)
             w["complex_e"] = False
             for spec in comps:
